@@ -61,7 +61,8 @@ ELEM_FNS = {"none": None, "tag": lambda x: (x, "m")}
 
 def preds(alpha):
     A = alpha[0]
-    return {"eqA": lambda x: x == A, "neA": lambda x: x != A, "T": lambda x: True, "F": lambda x: False, "truthy": lambda x: x}
+    return {"eqA": lambda x: x == A, "neA": lambda x: x != A, "T": lambda x: True, "F": lambda x: False,
+            "int": lambda x: 0 if x == A else 2}  # non-bool results: partition must go by truthiness
 
 
 def ipreds(alpha):
@@ -93,7 +94,7 @@ def instances(tier):
             for d in durs:
                 yield {"op": "group_by_until", "key": k, "elem": e, "dur": d}
     for pol in ("both", "first", "second"):
-        for p in ("eqA", "neA", "T", "F", "truthy"):
+        for p in ("eqA", "neA", "T", "F", "int"):
             yield {"op": "partition", "pred": p, "policy": pol}
         for p in ("ieven", "i<1", "eqA|i=2", "i"):
             yield {"op": "partition_indexed", "pred": p, "policy": pol}
@@ -211,7 +212,7 @@ def judge_group(inst, tl, alpha):
         probs.append(("exception-escaped", f"exception escaped into the scheduler: {env.sched.escaped[0][1]!r}"))
     e = L.error_identity_problem(src, [x[3] for x in inner])
     if e:
-        probs.append(("terminal-kind", e))
+        probs.append(("error-identity", e))
     for (_t, _s, w, _r) in inner:
         if not hasattr(w, "key"):
             probs.append(("key", f"emitted group {w!r} has no key"))
@@ -221,8 +222,8 @@ def judge_group(inst, tl, alpha):
     tie = L.has_tie(model, src_ev, L.SUB, H)
     if not ok:
         exp = L.canonical(model, src_ev, L.SUB, H)
-        probs.append((L.classify(exp, observed).replace("window", "group"),
-                      f"observed {L.show_segs(observed)}; not admitted by the rule, e.g. {L.show_segs(exp)}"))
+        label = L.classify(exp, observed).replace("window", "group")
+        probs.append((label, f"observed {L.show_segs(observed)}; not admitted by the rule ({label}), e.g. {L.show_segs(exp)}"))
     term = next(((L.rt(t), k) for (t, k, v) in src_ev if k in "CE"), None)
     n_el = sum(1 for x in tl if x[1] == "N")
     expired = any(s[3] is not None and (term is None or s[3] < term[0]) for s in observed)
@@ -300,7 +301,12 @@ def inst_id(inst):
     return f"{inst['op']}:{inst['key']}:{inst['elem']}{ds}"
 
 
+COLLAPSE = {"missing-group", "extra-group", "open-instant", "contents", "close-instant", "terminal-kind", "order", "key"}
+
+
 def signature(inst, label):
+    if label in COLLAPSE:
+        label = "groups-differ-from-rule"
     if inst["op"].startswith("partition"):
         return f"{inst['op']}|{inst['pred']}|{label}"
     d = inst.get("dur")
